@@ -42,7 +42,7 @@ Proof.
     { split; cbn [dr_qos dr_idx]; [exact Hq|]. destruct F3 as [[_ Hn] _]. lia. }
     intros st4 [HI4 F4]. apply wp_bind.
     assert (Ho4 : occ (lives st4) id) by (eapply ext_occ; [apply fr_ext; exact F4|exact Ho3]).
-    wp_use reschedule_spec; [exact HI4|exact Ho4|]. intros st5 (HI5 & E5 & N5).
+    wp_use reschedule_spec; [exact HI4|exact Ho4|discriminate|]. intros st5 (HI5 & E5 & N5).
     apply wp_bind. wp_use dbg_no_dups_spec; [exact HI5|eapply ext_occ; eauto|]. intros _ _. cbn [wp].
     split; [exact HI5|]. split.
     + eapply ext_trans; [apply fr_ext; exact F3|]. eapply ext_trans; [apply fr_ext; exact F4|exact E5].
@@ -204,7 +204,7 @@ Proof.
     { eapply RInv_put_obuf; eauto. pose proof (ri_obuf _ _ HI _ _ Hob). lia. }
     assert (F1 : fr st (put_obuf st id o')) by frame_tac.
     destruct ok.
-    + apply wp_bind. wp_use reschedule_spec; [exact HI1|exact Ho|]. intros st2 (HI2 & E2 & N2).
+    + apply wp_bind. wp_use reschedule_spec; [exact HI1|exact Ho|discriminate|]. intros st2 (HI2 & E2 & N2).
       cbn [wp fst snd]. unfold pkt_post, NP. split; [exact HI2|].
       split; [eapply ext_trans; [apply fr_ext; exact F1|exact E2]|]. rewrite N2. rsimp. auto.
     + cbn [wp fst snd]. unfold pkt_post, NP. flsimp. split; [exact HI1|]. split; [apply fr_ext; exact F1|].
@@ -220,7 +220,7 @@ Proof.
       { eapply RInv_put_obuf; eauto. cbn [o2 set_o_pubrels o_inflight]. pose proof (ri_obuf _ _ HI _ _ Hob). lia. }
       assert (F1 : fr st (put_obuf st id o2)) by frame_tac.
       apply wp_bind. wp_use commit_ack_spec; [exact HI1|exact Ho|]. intros st2 [HI2 F2].
-      apply wp_bind. wp_use reschedule_spec; [exact HI2|eapply ext_occ; [apply fr_ext; exact F2|exact Ho]|].
+      apply wp_bind. wp_use reschedule_spec; [exact HI2|eapply ext_occ; [apply fr_ext; exact F2|exact Ho]|discriminate|].
       intros st3 (HI3 & E3 & N3). cbn [wp fst snd]. unfold pkt_post, NP. split; [exact HI3|].
       split; [eapply ext_trans; [apply fr_ext; exact F1|eapply ext_trans; [apply fr_ext; exact F2|exact E3]]|].
       destruct F2 as (_ & _ & N2). rewrite N3, N2. rsimp. auto.
@@ -237,7 +237,7 @@ Proof.
       apply wp_bind. wp_use append_to_commitlog_spec; [exact HI1|exact Ho|].
       intros [st2 res] (H1 & H2 & H3 & H4). cbn [fst snd] in *.
       destruct res.
-      * apply wp_bind. wp_use reschedule_spec; [exact H1|eapply ext_occ; eauto|]. intros st3 (HI3 & E3 & N3).
+      * apply wp_bind. wp_use reschedule_spec; [exact H1|eapply ext_occ; eauto|discriminate|]. intros st3 (HI3 & E3 & N3).
         cbn [wp fst snd]. unfold pkt_post, NP. flsimp. split; [exact HI3|].
         split; [eapply ext_trans; [apply fr_ext; exact F1|eapply ext_trans; eauto]|]. intros _ X. discriminate.
       * cbn [wp fst snd]. unfold pkt_post, NP. flsimp. split; [exact H1|].
@@ -295,7 +295,7 @@ Proof.
   apply wp_bind.
   assert (H2 : wp cfg (if f_force_ack fl then reschedule st1 id SFreshData else Ok st1)
                   (fun st2 => RInvC cfg st2 /\ ext st1 st2 /\ r_notif st2 = r_notif st1)).
-  { destruct (f_force_ack fl); [apply reschedule_spec; assumption|cbn [wp]; auto with rinv]. }
+  { destruct (f_force_ack fl); [apply reschedule_spec; [assumption|assumption|discriminate]|cbn [wp]; auto with rinv]. }
   eapply wp_mono; [exact H2|]. cbn beta. intros st2 (HI2 & E2 & N2).
   apply wp_bind.
   assert (H3 : wp cfg (if f_new_data fl then drain_notifications st2 else Ok st2)
